@@ -16,7 +16,7 @@ def cases(tier='quick'):
         'RotatedSweepDecoder3D': [('RotatedPlanar3DCode', (2, 2, 2)), ('RotatedToric3DCode', (2, 2, 2))],
         'SweepMatchDecoder': [('Toric3DCode', (2, 2, 2)), ('Toric3DCode', (3, 3, 3)), ('Planar3DCode', (2, 2, 2))],
         'RotatedSweepMatchDecoder': [('RotatedPlanar3DCode', (2, 2, 2)), ('RotatedPlanar3DCode', (3, 3, 3)), ('RotatedToric3DCode', (2, 2, 2)), ('RotatedToric3DCode', (4, 2, 2))],
-        'XCubeMatchingDecoder': [('XCubeCode', (2, 2, 2)), ('XCubeCode', (3, 3, 3))],
+        'XCubeMatchingDecoder': [('XCubeCode', (2, 2, 2)), ('XCubeCode', (3, 3, 3)), ('XCubeCode', (2, 3, 2)), ('XCubeCode', (3, 2, 2)), ('XCubeCode', (2, 2, 3)), ('XCubeCode', (2, 3, 4))],
     }
     out = []
     for d, lst in c.items():
